@@ -2,6 +2,7 @@
 package eng
 
 import (
+	"go/token"
 	"fmt"
 	"go/types"
 
@@ -10,6 +11,28 @@ import (
 	"polyverif/core"
 	"polyverif/ir"
 )
+
+// Opt carries optional query parameters: a start instruction (start-relative
+// dominance) and extra edges to delete (configuration facts: edges that are
+// infeasible under the stated configuration).
+type Opt struct {
+	Start ssa.Instruction
+	Cuts  []ir.Edge
+	Fact  string
+}
+
+func (o *Opt) start() ssa.Instruction {
+	if o == nil {
+		return nil
+	}
+	return o.Start
+}
+func (o *Opt) cuts() []ir.Edge {
+	if o == nil {
+		return nil
+	}
+	return o.Cuts
+}
 
 // NamedGuard is a guard with a printable description.
 type NamedGuard struct {
@@ -20,7 +43,7 @@ type NamedGuard struct {
 // Dominates decides: every path from the entry of fn (or from just after
 // `start`) to any sink takes a pass edge of guard g.  One obligation per
 // (fn, guard, sinkDesc).
-func Dominates(c *core.Ctx, rule string, fn *ssa.Function, g NamedGuard, sinks []ir.Sink, sinkDesc string, start ssa.Instruction) bool {
+func Dominates(c *core.Ctx, rule string, fn *ssa.Function, g NamedGuard, sinks []ir.Sink, sinkDesc string, opt *Opt) bool {
 	if fn == nil {
 		return false
 	}
@@ -31,8 +54,22 @@ func Dominates(c *core.Ctx, rule string, fn *ssa.Function, g NamedGuard, sinks [
 		return false
 	}
 	pass := ir.PassEdges(fn, g.G)
-	r := ir.NewReach(fn).CutEdges(pass).Run(start)
+	r := ir.NewReach(fn).CutEdges(pass).CutEdges(opt.cuts()).Run(opt.start())
 	for _, s := range sinks {
+		if s.BoolVal != nil {
+			// `return <cond>`: returning want is equivalent to the guard passing
+			v, neg := s.BoolVal, false
+			for {
+				if u, ok := v.(*ssa.UnOp); ok && u.Op == token.NOT {
+					v, neg = u.X, !neg
+					continue
+				}
+				break
+			}
+			if ok, passTrue := g.G(ir.Cond{V: v, Neg: false}); ok && (passTrue != neg) == s.BoolWant {
+				continue
+			}
+		}
 		if r.SinkReachable(s) {
 			what := "guard absent in function"
 			if len(pass) > 0 {
@@ -49,7 +86,7 @@ func Dominates(c *core.Ctx, rule string, fn *ssa.Function, g NamedGuard, sinks [
 
 // MustPassCall decides: every path from entry (or start) to any sink executes
 // a call satisfying pred first.
-func MustPassCall(c *core.Ctx, rule string, fn *ssa.Function, callDesc string, pred func(ssa.CallInstruction) bool, sinks []ir.Sink, sinkDesc string, start ssa.Instruction) bool {
+func MustPassCall(c *core.Ctx, rule string, fn *ssa.Function, callDesc string, pred func(ssa.CallInstruction) bool, sinks []ir.Sink, sinkDesc string, opt *Opt) bool {
 	if fn == nil {
 		return false
 	}
@@ -59,13 +96,13 @@ func MustPassCall(c *core.Ctx, rule string, fn *ssa.Function, callDesc string, p
 		c.Broken(rule, fn, construct, c.P.Rel(fn.Pos()), "no sink found: "+sinkDesc)
 		return false
 	}
-	r := ir.NewReach(fn)
+	r := ir.NewReach(fn).CutEdges(opt.cuts())
 	n := 0
 	for _, call := range ir.Calls(fn, pred) {
 		r.Barrier[call] = true
 		n++
 	}
-	r.Run(start)
+	r.Run(opt.start())
 	for _, s := range sinks {
 		if r.SinkReachable(s) {
 			c.Violate(rule, fn, construct, c.P.Rel(s.Instr.Pos()),
@@ -126,4 +163,46 @@ func Obj(c *core.Ctx, pkg, name string) *types.Func {
 // CallPred builds a CallInstruction predicate from objects.
 func CallPred(objs ...*types.Func) func(ssa.CallInstruction) bool {
 	return func(ci ssa.CallInstruction) bool { return ir.CalleeIs(ci, objs...) }
+}
+
+// NetFactCuts returns the CFG edges of fn that are infeasible under the
+// configuration fact "config.DefConfig.P2PNode.NetworkId == netID": for each
+// `K == NetworkId` / `K != NetworkId` test the edge contradicting the fact.
+func NetFactCuts(fn *ssa.Function, netID int64) []ir.Edge {
+	var out []ir.Edge
+	isNet := func(v ssa.Value) bool {
+		u, ok := ir.Strip(v).(*ssa.UnOp)
+		if !ok {
+			return false
+		}
+		fa, ok := u.X.(*ssa.FieldAddr)
+		if !ok {
+			return false
+		}
+		st, ok := fa.X.Type().Underlying().(*types.Pointer).Elem().Underlying().(*types.Struct)
+		return ok && st.Field(fa.Field).Name() == "NetworkId"
+	}
+	for _, cd := range ir.Conds(fn) {
+		b, ok := cd.V.(*ssa.BinOp)
+		if !ok || (b.Op != token.EQL && b.Op != token.NEQ) {
+			continue
+		}
+		var k int64
+		var isk bool
+		if isNet(b.X) {
+			k, isk = ir.ConstInt(b.Y)
+		} else if isNet(b.Y) {
+			k, isk = ir.ConstInt(b.X)
+		}
+		if !isk {
+			continue
+		}
+		val := (k == netID) == (b.Op == token.EQL) // value of cd.V under the fact
+		idx := cd.FalseIdx()
+		if !val {
+			idx = cd.TrueIdx()
+		}
+		out = append(out, ir.Edge{From: cd.If.Block(), Idx: idx})
+	}
+	return out
 }
